@@ -879,7 +879,12 @@ func (r *Run) stateInvariants(op *OpDesc, c *Call, pre, post *Snap, failed bool)
 	st := r.Stats
 	for i := range post.P {
 		if post.P[i] == pre.P[i] {
-			continue
+			// an unchanged slot was validated when it was written - except the
+			// receiver of a successful operation, which must hold a valid point now
+			// even if the operation chose not to touch it
+			if !(op.Recv == KPoint && op.Writes && i == c.R && !failed && post.P[i].GuardedZero()) {
+				continue
+			}
 		}
 		raw := post.P[i]
 		r.ev("C12")
